@@ -30,6 +30,7 @@ func aliasedDoc(r *prng.R) interface{} {
 		"strs": []interface{}{"b", "a", "c"},
 		"nul":  nil,
 		"e":    map[string]interface{}{},
+		"holes": []interface{}{map[string]interface{}{}, map[string]interface{}{"k": "x"}, map[string]interface{}{}, []interface{}{}},
 		"ea":   []interface{}{},
 		"b":    map[string]interface{}{"c": "low", "d": []interface{}{[]interface{}{1.0, 2.0}, []interface{}{3.0}}},
 	}
@@ -87,7 +88,7 @@ func (g *c07Gen) mutator() jast.Node {
 		return &jast.Group{X: &jast.Name{V: "arr"}, Pairs: [][2]jast.Node{{&jast.Name{V: "k"}, &jast.Name{V: "v"}}}}
 	}
 	g.tags["$map-transform"] = true
-	return call("map", &jast.Name{V: "arr"}, g.transform())
+	return call("map", &jast.Name{V: r.Pick("arr", "holes", "holes")}, g.transform())
 }
 
 func (g *c07Gen) pattern() jast.Node {
@@ -193,6 +194,12 @@ func (g *c07Gen) transformProgram() jast.Node {
 		subject = []jast.Node{&jast.Num{V: 1}, &jast.Str{V: "s"}, &jast.Name{V: "nothing"}, &jast.Bool{V: false}}[r.Intn(4)]
 	case 5:
 		subject = &jast.Var{Name: "reg"}
+	case 6:
+		// empty and tiny containers taken from the input: a "nothing to copy"
+		// shortcut in the transform would hand back the caller's own object
+		g.tags["subject:empty-or-tiny-container"] = true
+		subject = []jast.Node{&jast.Name{V: "e"}, &jast.Name{V: "ea"}, &jast.Name{V: "holes"}, &jast.Path{Steps: []jast.Node{&jast.Name{V: "b"}, &jast.Name{V: "d"}}},
+			&jast.Path{Steps: []jast.Node{&jast.Var{Name: "reg"}, &jast.Name{V: "o"}}}, &jast.Path{Steps: []jast.Node{&jast.Name{V: "a"}, &jast.Name{V: "b"}}}}[r.Intn(6)]
 	default:
 		subject = &jast.Var{Name: ""}
 	}
